@@ -745,6 +745,26 @@ def scripted(rng):
                {"op": "append_wfm", "i": 0, "srcs": [1], "single": rng.random() < 0.5},
                {"op": "get", "i": 0}]
         out.append({"ops": ops})
+    # borrowed buffer WITH some slack, several sources: the first fit, the total does not -> the whole append is rejected
+    for it in range(12):
+        kind = "ACSD"[it % 4]
+        dt = rng.choice(sorted(SUPPORTED[kind]))
+        n0, slack = rng.randrange(0, 3), rng.randrange(1, 4)
+        mk = lambda n, form: {"vals": [[rng.randrange(2)] for _ in range(n)], "ndim": 1, "ncols": 1, "dtype": dt, "form": form}
+        irregular = kind != "S" and rng.random() < 0.4
+        tim = lambda base, n: None if kind == "S" else ({"mode": 2, "tss": [(base + j) * u for j in range(n)]} if irregular else rng.choice([None, {"mode": 1, "si": u}]))
+        c1 = rng.randrange(1, slack + 1)
+        c2 = slack - c1 + rng.randrange(1, 3)
+        ops = [{"op": "from_array", "kind": kind, "arr": mk(n0 + slack + 1, "view"), "via": "ctor", "start": 1, "sc": n0, "scale": 0, "props": {"k1": "a"}, "timing": tim(0, n0)},
+               {"op": "new", "kind": kind, "dtype": dt, "sc": c1, "start": 0, "cap": c1, "scale": 0, "props": {"k2": "b", "NI_ChannelName": "s1"}, "timing": tim(20, c1)},
+               {"op": "new", "kind": kind, "dtype": dt, "sc": c2, "start": 0, "cap": c2, "scale": 0, "props": {"k3": "c"}, "timing": tim(40, c2)},
+               {"op": "write", "i": 1, "r": 0, "c": 0, "v": 1},
+               {"op": "append_wfm", "i": 0, "srcs": [1, 2], "single": False, "seq": rng.choice(["list", "tuple"])},
+               {"op": "get", "i": 0},
+               {"op": "append_wfm", "i": 0, "srcs": [1], "single": rng.random() < 0.5},
+               {"op": "append_wfm", "i": 0, "srcs": [1, 1, 2], "single": False},
+               {"op": "get", "i": 0}]
+        out.append({"ops": ops})
     # NumPy integer scalars as start/count/capacity arguments whose sum does not fit their own type
     for _ in range(4):
         kind = rng.choice(["A", "C", "S", "D"])
